@@ -109,6 +109,24 @@ func rayIntersectsSegment(p, a, b Point) bool {
 			return true
 		}
 	}
+	if math.Max(math.Abs(a.X), math.Abs(a.Y)) > math.Max(math.Abs(b.X), math.Abs(b.Y)) {
+		// The lower end is the one with the larger coordinates. When it is
+		// astronomically far away (2^54 and beyond next to ordinary
+		// coordinates) the differences p - a no longer depend on p, so the
+		// slopes are compared as seen from the upper end instead: p is on or
+		// left of the segment when the slope from p up to b is at most the
+		// slope of the segment.
+		if p.X == b.X {
+			// p is straight below the upper end: left of a segment that
+			// leans to the left, right of one that leans to the right.
+			return a.X > b.X
+		}
+		dy1, dx1, dy2, dx2 := b.Y-p.Y, b.X-p.X, b.Y-a.Y, b.X-a.X
+		if math.IsInf(dy1, 0) || math.IsInf(dx1, 0) || math.IsInf(dy2, 0) || math.IsInf(dx2, 0) {
+			dy1, dx1, dy2, dx2 = b.Y/2-p.Y/2, b.X/2-p.X/2, b.Y/2-a.Y/2, b.X/2-a.X/2
+		}
+		return dy1/dx1 <= dy2/dx2
+	}
 	dy1, dx1, dy2, dx2 := p.Y-a.Y, p.X-a.X, b.Y-a.Y, b.X-a.X
 	if math.IsInf(dy1, 0) || math.IsInf(dx1, 0) || math.IsInf(dy2, 0) || math.IsInf(dx2, 0) {
 		// The difference of two coordinates of opposite sign near the end of
